@@ -289,7 +289,9 @@ def case_after_failure(spec, workdir):
     if len(ref) < 2:
         return dict(status="held", nontrivial=False, counters=dict(after_failure_skipped=1))
     par = spec["par"]
-    last = sorted(ref)[-1]
+    order = []
+    gens.build_pyramid(ps).visit_leaves(lambda pos, tile: order.append((int(pos.n), int(pos.x), int(pos.y))), parallel=1)
+    last = order[-1]  # the leaf that is handed out last: it is still being processed when the stage winds up
     instr_mp.install("stall", spec["seed"])
     log = os.path.join(workdir, "log")
     evlog.open_log(log)
@@ -308,6 +310,7 @@ def case_after_failure(spec, workdir):
         except RuntimeError:
             evlog.ev("first_stage_failed")
         evlog.ev("second_begin")
+        instr_mp._S.pop("stall_%d" % os.getpid(), None)  # the producer of the second stage stalls again (fresh stall schedule)
 
         def cb(pos, tile):
             p = (int(pos.n), int(pos.x), int(pos.y))
